@@ -111,7 +111,21 @@ func (fs *FS) OpenReader(dir string, name string) (types.ReadableFile, error) {
 // about the well-formedness of the file, it may be empty, the wrong size or
 // corrupt in arbitrary ways.
 func (fs *FS) OpenWriter(dir string, name string) (types.WritableFile, error) {
-	return os.OpenFile(filepath.Join(dir, name), os.O_RDWR, os.FileMode(0644))
+	f, err := os.OpenFile(filepath.Join(dir, name), os.O_RDWR, os.FileMode(0644))
+	if err != nil {
+		return nil, err
+	}
+	// We can't know whether the directory entry for this file was ever made
+	// durable: Create defers that to the first Sync and the process that created
+	// the file may never have got that far. So treat it like a new file and
+	// fsync the parent dir too the first time Sync is called on it, otherwise
+	// data committed to it could vanish along with the file after a crash.
+	fi := &File{
+		new:  0,
+		dir:  dir,
+		File: *f,
+	}
+	return fi, nil
 }
 
 func syncDir(dir string) error {
